@@ -697,11 +697,11 @@ impl PreferenceManager {
         // don't do an update if the value hasn't changed
         let mut is_user_pref = true;
         if let Some(pref_value) = self.api_prefs.prefs.get(key) {
+            is_user_pref = false;       // also when the value is unchanged (the user prefs don't exist before set_rules_dir is called)
             if matches!(pref_value, Yaml::Boolean(_)) {
                 bail!("{} is a boolean preference: '{}' is neither 'true' nor 'false'", key, value);
             }
             if yaml_scalar_to_string(pref_value) != value {
-                is_user_pref = false;
                 self.reset_files_from_preference_change(key, value)?;
             }
         } else if let Some(pref_value) = self.user_prefs.prefs.get(key) {
